@@ -3,8 +3,9 @@
 import json, os, re, subprocess, sys
 WT = "/tmp/wt/matrix"
 names = [a for a in sys.argv[1:] if not a.startswith("--")] or sorted(os.listdir("/verif/seeded"))
-if not os.path.isdir(WT):
-    subprocess.run(["git", "-C", "/repo", "worktree", "add", "-q", "--detach", WT, "HEAD"], check=True)
+if os.path.isdir(WT):
+    subprocess.run(["git", "-C", "/repo", "worktree", "remove", "--force", WT])
+subprocess.run(["git", "-C", "/repo", "worktree", "add", "-q", "--detach", WT, "HEAD"], check=True)
 env = dict(os.environ, XMC_REPO=WT)
 for name in names:
     d = f"/verif/seeded/{name}"
@@ -18,6 +19,8 @@ for name in names:
            "transform": "C07 C08 C13 C18 C20", "metrics": "C10 C12 C16", "comodo": "C14 C12 C13", "sgrid": "C14 C12 C13", "metadata_parsers": "C14 C12 C13",
            "gridops": "C01 C06 C09 C18", "axis": "C01 C02 C20"}
     ids = sorted({c for t in touched for c in REL.get(t, "").split()} | {meta["property"]}) if "--all" not in sys.argv else [f"C{i:02d}" for i in range(1, 21)]
+    if "--own" in sys.argv:
+        ids = [meta["property"]]
     for cid in ids:
         p = subprocess.run(["/venv/bin/python", "-m", "xmc.run", cid, "--tier", "quick", "--no-evidence"], cwd="/verif", env=env, capture_output=True, text=True)
         cls = re.search(r"recorded violation\(s\) in \d+ class\(es\): (.*)", p.stdout)
